@@ -132,18 +132,29 @@ class Machine:
         if s.it is None: raise Fault('symbolic branch without a forking context')
         return s.it.decide(c)
 
+    def concrete(s, t, what):
+        """a byte that decides the *shape* of an instruction must be concrete: enumerate its feasible values by forking (solver-driven)"""
+        if is_c(t): return t
+        v = simp(t)
+        if is_c(v): return v
+        if s.it is None: raise Undecodable('symbolic %s' % what)
+        for _ in range(300):
+            sol = z3.Solver(); sol.add(*s.it.fork['pc'])
+            if sol.check() != z3.sat: raise Fault('infeasible path while concretising %s' % what)
+            val = sol.model().eval(t, model_completion=True).as_long()
+            if s.it.decide(z3.If(t == val, z3.BitVecVal(1, 1), z3.BitVecVal(0, 1))): return val
+        raise Undecodable('too many values for %s' % what)
     # ---------- decoding
     def step(s):
         """decode and execute one instruction at s.rip. returns None, or ('ret',), ('jmp', target)"""
         p = s.rip; start = p; s.steps += 1
         pre66 = preF3 = preF2 = False; rex = 0
         while True:
-            b = s.byte(p)
-            if not is_c(b): raise Undecodable('symbolic opcode/prefix byte at %d' % p)
+            b = s.concrete(s.byte(p), 'opcode/prefix byte at %d' % p)
             if b == 0x66: pre66 = True; p += 1
             elif b == 0xF3: preF3 = True; p += 1
             elif b == 0xF2: preF2 = True; p += 1
-            elif b & 0xF0 == 0x40: rex = b; p += 1; b = s.byte(p); break
+            elif b & 0xF0 == 0x40: rex = b; p += 1; b = s.concrete(s.byte(p), 'opcode byte at %d' % p); break
             else: break
         if not is_c(b): raise Undecodable('symbolic opcode byte at %d' % p)
         W = (rex >> 3) & 1; R = (rex >> 2) & 1; X = (rex >> 1) & 1; Bx = rex & 1
@@ -154,7 +165,8 @@ class Machine:
             m = s.byte(p); p += 1
             if not is_c(m):
                 md, reg, rm = bits(m, 7, 6), bits(m, 5, 3), bits(m, 2, 0)
-                if not (is_c(md) and is_c(reg) and is_c(rm)): raise Undecodable('symbolic ModRM at %d' % (p - 1))
+                if not (is_c(md) and is_c(reg) and is_c(rm)):
+                    m = s.concrete(m, 'ModRM at %d' % (p - 1)); md, reg, rm = m >> 6, (m >> 3) & 7, m & 7
             else: md, reg, rm = m >> 6, (m >> 3) & 7, m & 7
             reg |= R << 3
             if md == 3: return reg, ('reg', rm | (Bx << 3))
@@ -162,7 +174,8 @@ class Machine:
             if rm == 4:
                 sib = s.byte(p); p += 1
                 sc, ix, bs = bits(sib, 7, 6), bits(sib, 5, 3), bits(sib, 2, 0)
-                if not (is_c(ix) and is_c(bs)): raise Undecodable('symbolic SIB index/base at %d' % (p - 1))
+                if not (is_c(ix) and is_c(bs)):
+                    sib = s.concrete(sib, 'SIB at %d' % (p - 1)); sc, ix, bs = sib >> 6, (sib >> 3) & 7, sib & 7
                 ix |= X << 3; scale = sc
                 if ix != 4: idx = ix
                 if bs == 5 and md == 0: disp = sx(s.imm(p, 4), 32, 64); p += 4
@@ -319,8 +332,7 @@ class Machine:
             d = d - 256 if d >> 7 else d; s.rip = p
             return ('jcc', s.cond(op & 15), p + d)
         if op == 0x0F:
-            op2 = s.byte(p); p += 1
-            if not is_c(op2): raise Undecodable('symbolic 0F opcode')
+            op2 = s.concrete(s.byte(p), '0F opcode at %d' % p); p += 1
             if 0x80 <= op2 <= 0x8F:
                 d = sx(s.imm(p, 4), 32, 64); p += 4; s.rip = p
                 if is_c(d): d = d - (1 << 64) if d >> 63 else d; return ('jcc', s.cond(op2 & 15), p + d)
